@@ -1,7 +1,8 @@
 #!/bin/sh
 # usage: tools/try_seeded.sh <seeded dir name> <ID> [tier]   -- applies the patch to /repo, runs the check, reverts
 d=/verif/seeded/$1; id=$2; tier=${3:-quick}
-cd /repo && { git apply "$d/patch.diff" 2>/dev/null || git apply --3way "$d/patch.diff" 2>/dev/null; } || { echo "PATCH DOES NOT APPLY"; git reset -q --hard HEAD; exit 3; }
+cd /repo && [ -z "$(git status --porcelain --untracked-files=no)" ] || { echo "/repo not clean"; exit 3; }
+{ git apply "$d/patch.diff" 2>/dev/null || git apply --3way "$d/patch.diff" 2>/dev/null; } || { echo "PATCH DOES NOT APPLY"; git reset -q --hard HEAD; exit 3; }
 cd /verif && ./check "$id" "$tier" 2>&1 | grep -v "^\[check\]" | head -${LINES_MAX:-12}
 git -C /repo reset -q --hard HEAD
 git -C /repo status --short | head -3
